@@ -12,7 +12,7 @@ for f in ('patch.diff', 'demo.diff'):
 meta = json.load(open(os.path.join(src, 'meta.json')))
 conf = json.load(open(os.path.join(src, 'confirm.json'))) if os.path.exists(os.path.join(src, 'confirm.json')) else {}
 out = {
-	'property': meta.get('property', prop), 'round': ('2' if prop.endswith('r2') else '1'), 'mutant': mk,
+	'property': meta.get('property', prop), 'round': (prop[-1] if len(prop) > 3 and prop[-2] == 'r' and prop[-1].isdigit() else '1'), 'mutant': mk,
 	'summary': meta.get('summary'), 'needs_to_manifest': meta.get('needs_to_manifest'),
 	'files_changed': meta.get('files_changed'), 'demo_test': meta.get('demo_test'), 'demo_cmd': meta.get('demo_cmd'),
 	'author': 'independent sub-agent given only the property text and a scratch worktree',
